@@ -46,7 +46,8 @@ def schedules(tier):
          {"name": "dupid", "relay": {"p_dup": 0.3}, "fault_ms": [0, 25000],
           "plan": [["q", n, "dupid"] for n in range(2, 40, 3)]},
          {"name": "drop-a", "plan": [["a", n, "drop"] for n in (1, 2, 5, 6, 7, 11)] + [["q", 3, "dup"], ["q", 9, "delay"]]},
-         {"name": "blackout", "blackout_ms": [["a", 2000, 9000], ["q", 15000, 18000]]}]
+         {"name": "blackout", "blackout_ms": [["a", 2000, 9000], ["q", 15000, 18000]]},
+         {"name": "id0", "plan": [["q", n, "id0"] for n in range(1, 90, 2)]}]
     if tier == "thorough":
         for k in range(0, 24, 2):
             s.append({"name": "plan%d" % k, "plan": [["q", k, "drop"], ["a", k + 1, "dup"], ["q", k + 3, "dupid"],
